@@ -137,6 +137,8 @@ def typed_expected(p):
                 loc = w.get("loc")
                 locv = "-" if not loc else (loc[len("SPACE-"):] if loc.startswith("SPACE-") else loc)
                 tilt = w.get("tilt") if not loc else (0 if (w["kind"] == "ROOF" or loc == "TOP") else 180 if loc == "BOTTOM" else 90)
+                if loc and "tilt_written" in w:
+                    tilt = w["tilt_written"]          # a written value is the value, wherever the element is located
                 nextto = w.get("nextto") if bounds == "INTERIOR" and w.get("nextto") else "-"
                 walls.append([w["name"], bounds, sp["name"], consname, locv, int(round(tilt * 1e4)), nextto])
                 for v in w.get("windows", []):
@@ -315,6 +317,9 @@ def run_c18(tier, replay=None):
                             sp.pop("inside", None)
                         if rng.random() < 0.3:
                             sp["nv"] = round(rng.uniform(0.1, 4.0), 2)
+                        for w in sp["walls"]:
+                            if w.get("loc") and rng.random() < 0.3:
+                                w["tilt_written"] = rng.choice([25.0, 75.0, 90.0, 165.0, 0.0, 180.0])
                         sp["power"], sp["veei_obj"], sp["veei_ref"] = round(rng.uniform(1, 12), 2), round(rng.uniform(2, 8), 2), round(rng.uniform(8.5, 12), 2)
                 lay = random_layout(rng, i)
                 text, doc = bdl_projects.print_bdl(p, lay, want_doc=True)
